@@ -10,8 +10,7 @@
       b_out   everything written to a connection's write buffer, newest first
       b_in    requests a client sent while its connection was Blocked: blocked
               connections are skipped by process_connections, the bytes wait in the socket
-      b_dead  connections whose client went away while Blocked (the server does not
-              notice: it never reads them)
+      b_dead  connections whose client went away and that the server has not looked at yet
       b_crashed  Server::run returned (nothing in the model sets it since repair e1d4020: a wake-up
                  on a key of another type used to propagate WRONGTYPE out of the loop)
 
@@ -23,10 +22,11 @@ From Ferrous Require Import Base.Bytes Generated Model.Resp Model.Types Model.St
   Model.Server.
 Open Scope Z_scope.
 
-(** BlockedClient (blocked_at is never read) *)
-Record waiter := { w_conn : Z; w_dl : option Z; w_left : bool }.   (* w_left: BLPop (true) / BRPop *)
-(** WakeupRequest *)
-Record wakeup := { u_conn : Z; u_db : Z; u_key : bytes; u_left : bool }.
+(** BlockedClient.  [w_at] stands for blocked_at: the Instants taken by successive
+    register_blocked calls increase, the model numbers them ([b_seq]) *)
+Record waiter := { w_conn : Z; w_dl : option Z; w_left : bool; w_at : Z }.   (* w_left: BLPop (true) / BRPop *)
+(** WakeupRequest (blocked_at travels with it since 8ab686d) *)
+Record wakeup := { u_conn : Z; u_db : Z; u_key : bytes; u_left : bool; u_at : Z }.
 (** BlockedState of a connection: keys (all of the same database), deadline, op *)
 Record bstate := { bl_db : Z; bl_keys : list bytes; bl_dl : option Z; bl_left : bool }.
 
@@ -41,30 +41,34 @@ Record blocking := {
   b_out : list (Z * frame);
   b_in : list (Z * list (frame * option Z));
   b_dead : list Z;
-  b_crashed : bool
+  b_crashed : bool;
+  b_seq : Z                 (* number of register_blocked calls so far: the next arrival stamp *)
 }.
 Definition init_blocking : blocking :=
-  {| b_reg := []; b_wake := []; b_blk := []; b_out := []; b_in := []; b_dead := []; b_crashed := false |}.
+  {| b_reg := []; b_wake := []; b_blk := []; b_out := []; b_in := []; b_dead := []; b_crashed := false; b_seq := 0 |}.
 
 Definition with_reg (b : blocking) (r : registry) : blocking :=
   {| b_reg := r; b_wake := b_wake b; b_blk := b_blk b; b_out := b_out b; b_in := b_in b;
-     b_dead := b_dead b; b_crashed := b_crashed b |}.
+     b_dead := b_dead b; b_crashed := b_crashed b; b_seq := b_seq b |}.
 Definition with_wake (b : blocking) (w : list wakeup) : blocking :=
   {| b_reg := b_reg b; b_wake := w; b_blk := b_blk b; b_out := b_out b; b_in := b_in b;
-     b_dead := b_dead b; b_crashed := b_crashed b |}.
+     b_dead := b_dead b; b_crashed := b_crashed b; b_seq := b_seq b |}.
 Definition with_blk (b : blocking) (l : list (Z * bstate)) : blocking :=
   {| b_reg := b_reg b; b_wake := b_wake b; b_blk := l; b_out := b_out b; b_in := b_in b;
-     b_dead := b_dead b; b_crashed := b_crashed b |}.
+     b_dead := b_dead b; b_crashed := b_crashed b; b_seq := b_seq b |}.
 Definition with_in (b : blocking) (l : list (Z * list (frame * option Z))) : blocking :=
   {| b_reg := b_reg b; b_wake := b_wake b; b_blk := b_blk b; b_out := b_out b; b_in := l;
-     b_dead := b_dead b; b_crashed := b_crashed b |}.
+     b_dead := b_dead b; b_crashed := b_crashed b; b_seq := b_seq b |}.
 Definition with_dead (b : blocking) (l : list Z) : blocking :=
   {| b_reg := b_reg b; b_wake := b_wake b; b_blk := b_blk b; b_out := b_out b; b_in := b_in b;
-     b_dead := l; b_crashed := b_crashed b |}.
+     b_dead := l; b_crashed := b_crashed b; b_seq := b_seq b |}.
 (** conn.send_frame: append to the connection's write buffer *)
 Definition emit (b : blocking) (c : Z) (f : frame) : blocking :=
   {| b_reg := b_reg b; b_wake := b_wake b; b_blk := b_blk b; b_out := (c, f) :: b_out b; b_in := b_in b;
-     b_dead := b_dead b; b_crashed := b_crashed b |}.
+     b_dead := b_dead b; b_crashed := b_crashed b; b_seq := b_seq b |}.
+Definition with_seq (b : blocking) (n : Z) : blocking :=
+  {| b_reg := b_reg b; b_wake := b_wake b; b_blk := b_blk b; b_out := b_out b; b_in := b_in b;
+     b_dead := b_dead b; b_crashed := b_crashed b; b_seq := n |}.
 (** conn.state = Authenticated *)
 Definition unblock (b : blocking) (c : Z) : blocking := with_blk b (zremove c (b_blk b)).
 Definition set_blocked (b : blocking) (c : Z) (st : bstate) : blocking := with_blk b (zset_ c st (b_blk b)).
@@ -91,8 +95,17 @@ Definition reg_put (r : registry) (k : regkey) (q : list waiter) : registry := (
 
 (** register_blocked_client: push_back on every key, in argument order (a repeated key
     registers twice) *)
-Definition register (r : registry) (db c : Z) (keys : list bytes) (left : bool) (dl : option Z) : registry :=
-  fold_left (fun r k => reg_put r (db, k) (reg_get r (db, k) ++ [{| w_conn := c; w_dl := dl; w_left := left |}]))
+Definition register (r : registry) (db c : Z) (keys : list bytes) (left : bool) (dl : option Z) (at_ : Z) : registry :=
+  fold_left (fun r k => reg_put r (db, k) (reg_get r (db, k) ++ [{| w_conn := c; w_dl := dl; w_left := left; w_at := at_ |}]))
+            keys r.
+(** reregister_blocked_client (8ab686d): insert before the first client that blocked later *)
+Fixpoint ins_at (w : waiter) (q : list waiter) : list waiter :=
+  match q with
+  | [] => [w]
+  | x :: t => if w_at w <? w_at x then w :: q else x :: ins_at w t
+  end.
+Definition reregister (r : registry) (db c : Z) (keys : list bytes) (left : bool) (dl : option Z) (at_ : Z) : registry :=
+  fold_left (fun r k => reg_put r (db, k) (ins_at {| w_conn := c; w_dl := dl; w_left := left; w_at := at_ |} (reg_get r (db, k))))
             keys r.
 
 (** unregister_client of one database: retain the other connections *)
@@ -112,7 +125,7 @@ Definition notify_key_ready (b : blocking) (db : Z) (k : bytes) : blocking :=
       let r1 := reg_put (b_reg b) (db, k) q in
       let r2 := unregister r1 db (w_conn w) in
       with_wake (with_reg b r2)
-                (b_wake b ++ [{| u_conn := w_conn w; u_db := db; u_key := k; u_left := w_left w |}])
+                (b_wake b ++ [{| u_conn := w_conn w; u_db := db; u_key := k; u_left := w_left w; u_at := w_at w |}])
   end.
 (** the loop after a successful LPUSH/RPUSH: once per pushed element while the key has
     waiters (repair 4844567) *)
@@ -132,6 +145,19 @@ Definition notify_after_push (b : blocking) (dbi : Z) (name : bytes) (parts : li
     | _, _ => b
     end
   else b.
+
+(** notify_keys_after_script (e42ab1f): after EVAL, for every declared key that has waiters, one
+    wake-up per element the list holds (llen(..).unwrap_or(0)) *)
+Definition llen_of (d : db) (k : bytes) : nat :=
+  match get_val d k with Some (VList l) => length l | _ => O end.
+Definition notify_after_script (s : server) (b : blocking) (dbi : Z) (parts : list frame) : blocking :=
+  let numkeys := match nth_error parts 2 with
+                 | Some (FBulk t) => match parse_usize t with Some n => Z.to_nat n | None => O end
+                 | _ => O end in
+  fold_left (fun b f => match f with
+                        | FBulk key => notify_n (llen_of (get_db s dbi) key) b dbi key
+                        | _ => b end)
+            (firstn numkeys (skipn 3 parts)) b.
 
 (** ---- the timeout argument ----
     Rust: from_utf8_lossy + parse::<f64>; t < 0, NaN, infinite, > 1e9 and unparsable text are
@@ -208,7 +234,7 @@ Definition h_bpop (left : bool) (now : Z) (s : server) (b : blocking) (c dbi : Z
               (* inside EXEC (connection id 0) a blocking pop does not block: nil at once (repair d076b83) *)
               if c =? 0 then (FNullArray, set_db s dbi d', b) else
               let dl := option_map (fun ms => now + ms) tmo in
-              let b1 := with_reg b (register (b_reg b) dbi c keys left dl) in
+              let b1 := with_seq (with_reg b (register (b_reg b) dbi c keys left dl (b_seq b))) (b_seq b + 1) in
               (* with_connection(conn_id, ..) *)
               let b2 := match zlookup c (s_conns s) with
                         | Some _ => set_blocked b1 c {| bl_db := dbi; bl_keys := keys; bl_dl := dl; bl_left := left |}
@@ -227,35 +253,50 @@ Definition bnormal (now : Z) (s : server) (b : blocking) (c dbi : Z) (parts : li
   match parts with
   | FBulk nm :: _ =>
       let name := upper nm in
-      if beq name (bs "BLPOP") then h_bpop true now s b c dbi parts oms
-      else if beq name (bs "BRPOP") then h_bpop false now s b c dbi parts oms
+      (* expire_before_command runs at the top of process_normal_command, for every command *)
+      if beq name (bs "BLPOP") then h_bpop true now (lazy_expire now s dbi name parts) b c dbi parts oms
+      else if beq name (bs "BRPOP") then h_bpop false now (lazy_expire now s dbi name parts) b c dbi parts oms
       else match normal_command now s c dbi parts oracle with
-           | (r, s') => (r, s', notify_after_push b dbi name parts r)
+           | (r, s') =>
+               let b1 := notify_after_push b dbi name parts r in
+               (r, s', if beq name (bs "EVAL") then notify_after_script s' b1 dbi parts else b1)
            end
   | _ => match normal_command now s c dbi parts oracle with (r, s') => (r, s', b) end
   end.
 
-(** handle_exec: the queue runs through process_normal_command with connection id 0 *)
-Fixpoint bexec_queue (now : Z) (s : server) (b : blocking) (dbi : Z) (q : list (list frame)) (acc : list frame)
+(** handle_exec: the queue runs through process_normal_command with connection id 0 and the
+    database selected when EXEC arrived; a queued SELECT (1ecc022) runs for the connection that
+    sent EXEC and what follows it runs in the database it selected.  (The pub/sub commands and
+    AUTH, which handle_exec also runs for the connection since 51742a5, do not touch the
+    blocking manager; as in Server.exec_queue they are not singled out here.) *)
+Fixpoint bexec_queue (now : Z) (s : server) (b : blocking) (c dbi : Z) (q : list (list frame)) (acc : list frame)
   : list frame * server * blocking :=
   match q with
   | [] => (rev acc, s, b)
-  | parts :: r => match bnormal now s b 0 dbi parts None None with
-                  | (rep, s', b') => bexec_queue now s' b' dbi r (rep :: acc)
-                  end
+  | parts :: r =>
+      if beq (queued_name parts) (bs "SELECT") then
+        match bnormal now s b c dbi parts None None with
+        | (rep, s', b') =>
+            let dbi' := match zlookup c (s_conns s') with Some cn => c_db cn | None => dbi end in
+            bexec_queue now s' b' c dbi' r (rep :: acc)
+        end
+      else
+        match bnormal now s b 0 dbi parts None None with
+        | (rep, s', b') => bexec_queue now s' b' c dbi r (rep :: acc)
+        end
   end.
 Definition bh_exec (now : Z) (s : server) (b : blocking) (c : Z) (cn : conn) : frame * server * blocking :=
   if negb (c_intx cn) then (r_err, s, b) else
-  if existsb (fun kb => was_modified_since now s (c_db cn) (fst kb) (snd kb)) (c_watched cn)
+  if watch_violated now s cn
   then (FNullArray, set_conn s c (clear_tx cn), b)
   else
     let s1 := set_conn s c (clear_tx cn) in
-    match bexec_queue now s1 b (c_db cn) (c_queue cn) [] with
+    match bexec_queue now s1 b c (c_db cn) (c_queue cn) [] with
     | (reps, s2, b2) => (FArray reps, s2, b2)
     end.
 
-(** process_frame: same routing as Server.process_frame; only EXEC and the commands that
-    reach process_normal_command involve the blocking manager *)
+(** process_frame: same routing as Server.process_frame (the queueing test first, 51742a5);
+    only EXEC and the commands that reach process_normal_command involve the blocking manager *)
 Definition bprocess_frame (now : Z) (s : server) (b : blocking) (c : Z) (req : frame)
            (oracle : option frame) (oms : option Z) : frame * server * blocking :=
   let pass := match process_frame now s c req oracle with (r, s') => (r, s', b) end in
@@ -267,36 +308,58 @@ Definition bprocess_frame (now : Z) (s : server) (b : blocking) (c : Z) (req : f
       | None => pass
       | Some cn =>
           if (match s_password s with Some _ => true | None => false end) && negb (c_auth cn) then pass
+          else if c_intx cn && negb (mem_name command tx_not_queued) then pass
           else if beq command (bs "MULTI") then pass
           else if beq command (bs "EXEC") then bh_exec now s b c cn
           else if beq command (bs "DISCARD") || beq command (bs "WATCH") || beq command (bs "UNWATCH")
                   || beq command (bs "AUTH") then pass
-          else if c_intx cn && negb (mem_name command tx_not_queued) then pass
           else bnormal now s b c (c_db cn) parts oracle oms
       end
   | _ => pass
   end.
 
-(** ---- process_connection: every frame of one read is processed, in order, whatever the
-    connection's state has become meanwhile; the replies (NoResponse skipped) go to the write
-    buffer; QUIT closes afterwards (cleanup_connections unregisters the connection) ---- *)
+(** ---- process_connection: the frames of one read are processed in order until one of them
+    blocks the connection: what follows it waits (conn.deferred_frames, 939522b) and is
+    processed, before anything read later, once the connection is unblocked; the replies
+    (NoResponse skipped) go to the write buffer; QUIT closes afterwards (cleanup_connections
+    unregisters the connection) ---- *)
 Definition drop_conn (b : blocking) (c : Z) : blocking :=
   with_in (with_blk (with_reg b (unregister_all (b_reg b) c)) (zremove c (b_blk b))) (zremove c (b_in b)).
+Definition finish_batch (s : server) (b : blocking) (c : Z) (quit : bool) : server * blocking :=
+  if quit then (del_conn s c, drop_conn b c) else (s, b).
+Definition defer (b : blocking) (c : Z) (rest : list (frame * option Z)) : blocking :=
+  match rest with
+  | [] => b
+  | _ => with_in b (zset_ c (rest ++ match zlookup c (b_in b) with Some l => l | None => [] end) (b_in b))
+  end.
 Fixpoint serve_batch (now : Z) (s : server) (b : blocking) (c : Z) (fs : list (frame * option Z)) (quit : bool)
   : server * blocking :=
   match fs with
-  | [] => if quit then (del_conn s c, drop_conn b c) else (s, b)
+  | [] => finish_batch s b c quit
   | (f, oms) :: r =>
       match bprocess_frame now s b c f None oms with
       | (rep, s', b') =>
           let b'' := match rep with FNoResponse => b' | _ => emit b' c rep end in
-          serve_batch now s' b'' c r (quit || is_quit f)
+          if is_blocked b'' c then finish_batch s' (defer b'' c r) c (quit || is_quit f)
+          else serve_batch now s' b'' c r (quit || is_quit f)
       end
   end.
 
-(** ---- wake_client (after repair 8db2804) ---- *)
-Definition wake_client (s : server) (b : blocking) (u : wakeup) : server * blocking :=
-  let d := get_db s (u_db u) in
+(** ---- wake_client (after the repairs 8db2804, e1d4020, bdd75e8, 8ab686d, 0715a3b) ---- *)
+(** the keys of the client, in order, as a fresh blocking call would try them (errors count as
+    "nothing": rpop/lpop(..).unwrap_or(None)) *)
+Fixpoint recheck (left : bool) (d : db) (keys : list bytes) : option (bytes * bytes) * db :=
+  match keys with
+  | [] => (None, d)
+  | k :: r =>
+      match on_key d k (e_pop left) with
+      | (FBulk v, d') => (Some (k, v), d')
+      | (_, d') => recheck left d' r
+      end
+  end.
+Definition wake_client (now : Z) (s : server) (b : blocking) (u : wakeup) : server * blocking :=
+  (* expire_if_due(wakeup.db, wakeup.key) *)
+  let d := fst (purge_key now (get_db s (u_db u), []) (u_key u)) in
   match on_key d (u_key u) (e_pop (u_left u)) with
   | (FBulk v, d') =>
       match zlookup (u_conn u) (b_blk b) with
@@ -304,21 +367,29 @@ Definition wake_client (s : server) (b : blocking) (u : wakeup) : server * block
           (log_pop (set_db s (u_db u) d') (u_db u) (u_left u) (u_key u),
            unblock (emit b (u_conn u) (FArray [FBulk (u_key u); FBulk v])) (u_conn u))
       | None =>
-          (* nobody to take it: put it back at the end it came from *)
-          (set_db s (u_db u) (snd (on_key d' (u_key u) (e_push (u_left u) [v]))), b)
+          (* nobody to take it: put it back at the end it came from, and tell the next client
+             waiting on the key (0715a3b) *)
+          (set_db s (u_db u) (snd (on_key d' (u_key u) (e_push (u_left u) [v]))),
+           notify_key_ready b (u_db u) (u_key u))
       end
-  | (_, d') =>        (* nothing there - or a key of another type: lpop(..).unwrap_or(None), repair e1d4020 *)
-      let s' := set_db s (u_db u) d' in
+  | (_, d') =>        (* nothing there - or a key of another type: lpop(..).unwrap_or(None) *)
       match zlookup (u_conn u) (b_blk b) with
-      | Some st => (s', with_reg b (register (b_reg b) (u_db u) (u_conn u) (bl_keys st) (bl_left st) (bl_dl st)))
-      | None => (s', b)
+      | Some st =>
+          match recheck (bl_left st) d' (bl_keys st) with
+          | (Some (k, v), d'') =>
+              (set_db s (u_db u) d'', unblock (emit b (u_conn u) (FArray [FBulk k; FBulk v])) (u_conn u))
+          | (None, d'') =>
+              (set_db s (u_db u) d'',
+               with_reg b (reregister (b_reg b) (u_db u) (u_conn u) (bl_keys st) (bl_left st) (bl_dl st) (u_at u)))
+          end
+      | None => (set_db s (u_db u) d', b)
       end
   end.
-Definition wake_step (sb : server * blocking) (u : wakeup) : server * blocking :=
-  if b_crashed (snd sb) then sb else wake_client (fst sb) (snd sb) u.
+Definition wake_step (now : Z) (sb : server * blocking) (u : wakeup) : server * blocking :=
+  if b_crashed (snd sb) then sb else wake_client now (fst sb) (snd sb) u.
 (** process_wakeups: at most 32 requests per iteration *)
-Definition process_wakeups (s : server) (b : blocking) : server * blocking :=
-  fold_left wake_step (firstn 32 (b_wake b)) (s, with_wake b (skipn 32 (b_wake b))).
+Definition process_wakeups (now : Z) (s : server) (b : blocking) : server * blocking :=
+  fold_left (wake_step now) (firstn 32 (b_wake b)) (s, with_wake b (skipn 32 (b_wake b))).
 
 (** ---- process_blocked_timeouts ---- *)
 Definition expired_w (now : Z) (w : waiter) : bool :=
@@ -348,10 +419,15 @@ Definition conn_step (now : Z) (sb : server * blocking) (ci : Z * list (frame * 
   let c := fst ci in
   if is_blocked b c then sb
   else serve_batch now s (with_in b (zremove c (b_in b))) c (snd ci) false.
+(** a client that went away: a connection that is not Blocked is read and found closed; a
+    Blocked one is looked at (c7e6509) and found closed when nothing is left to read.  Either
+    way it becomes Closing and cleanup_connections removes it and unregisters it everywhere. *)
+Definition has_input (b : blocking) (c : Z) : bool :=
+  match zlookup c (b_in b) with Some (_ :: _) => true | _ => false end.
+Definition noticed (b : blocking) (c : Z) : bool := negb (is_blocked b c) || negb (has_input b c).
 Definition reap_dead (b : blocking) : blocking :=
-  let gone := filter (fun c => negb (is_blocked b c)) (b_dead b) in
-  fold_left (fun b c => with_in (with_reg b (unregister_all (b_reg b) c)) (zremove c (b_in b)))
-            gone (with_dead b (filter (is_blocked b) (b_dead b))).
+  fold_left drop_conn (filter (noticed b) (b_dead b))
+            (with_dead b (filter (fun c => negb (noticed b c)) (b_dead b))).
 Definition process_conns (now : Z) (s : server) (b : blocking) : server * blocking :=
   match fold_left (conn_step now) (b_in b) (s, b) with
   | (s', b') => (s', reap_dead b')
@@ -360,7 +436,7 @@ Definition process_conns (now : Z) (s : server) (b : blocking) : server * blocki
 (** one iteration of Server::run *)
 Definition iteration (now : Z) (sb : server * blocking) : server * blocking :=
   if b_crashed (snd sb) then sb else
-  match process_wakeups (fst sb) (snd sb) with
+  match process_wakeups now (fst sb) (snd sb) with
   | (s1, b1) =>
       if b_crashed b1 then (s1, b1) else
       match process_conns now s1 b1 with
